@@ -4062,6 +4062,10 @@ def calc_divisions_for_align(*exprs, allow_shuffle=True):
     dfs = [df for df in exprs if isinstance(df, Expr) and df.ndim > 0]
     if not all(df.known_divisions for df in dfs):
         return (None,) * (max(df.npartitions for df in dfs) + 1)
+    if all(df.divisions == dfs[0].divisions for df in dfs):
+        # Nothing to align, the inputs are used as they are (a repeated last
+        # division must not be dropped then)
+        return list(dfs[0].divisions)
     divisions = list(unique(merge_sorted(*[df.divisions for df in dfs])))
     if len(divisions) == 1:  # single value for index
         divisions = (divisions[0], divisions[0])
